@@ -323,7 +323,11 @@ def check_case(name, case, acc, report=True):
         if eigen_route and cls == ILL:
             detail = dict(detail, symptom=sig_text)
             route = "either" if setting == "default expm" else setting
-            fail(f"eigen-decomposition exponentiation inaccurate (> 1e-8) on nearly defective / badly scaled Q [expm={route}]", detail)
+            # the recorded finding is an error of 1e-8 .. 1e-6 accepted by the checked route; a larger error is a different
+            # failure (e.g. the check not being applied at all) and must not share its signature
+            err = max((abs(float(v)) for k, v in detail.items() if k in ("max", "min") and isinstance(v, (int, float))), default=0.0)
+            gross = "" if err <= 1e-6 and sig_text != "P has non-finite entries" else "; error > 1e-6"
+            fail(f"eigen-decomposition exponentiation inaccurate (> 1e-8) on nearly defective / badly scaled Q [expm={route}{gross}]", detail)
         else:
             fail(f"{sig_text} [{setting}; {cls}]", detail)
 
@@ -430,7 +434,8 @@ def direct_backends(name, full, Q, wp, fail, acc):
                 else:
                     c = cls
                 if bname in ("FastExponentiator", "CheckedExponentiator") and cls == ILL:
-                    fail(f"eigen-decomposition exponentiation inaccurate (> 1e-8) on nearly defective / badly scaled Q [{bname}]",
+                    gross = "" if d <= 1e-6 else "; error > 1e-6"
+                    fail(f"eigen-decomposition exponentiation inaccurate (> 1e-8) on nearly defective / badly scaled Q [{bname}{gross}]",
                          {"t": t, "max_abs_diff": float(d)})
                 else:
                     fail(f"{bname}: differs from scipy expm(Q t) [{c}]", {"t": t, "max_abs_diff": float(d), "|Q t|_inf": qn * t})
